@@ -131,6 +131,29 @@ func (b *Batch) Nack(i int, errs ...error) {
 	b.tainted = true
 }
 
+// nackPhysical marks the record at the PHYSICAL index idx (an index into the
+// batch's records, not into the slice returned by ActiveRecords) as nacked,
+// with the same split-run propagation as Nack. Nacking a member of a split run
+// also re-flags the run's filtered members, i.e. it changes which records
+// count as active. A caller that marks records in several steps (a
+// destination that acknowledges a batch in more than one response) therefore
+// has to resolve its active indices to physical ones once, up front, and use
+// this method; resolving them again after an earlier Nack would shift them.
+func (b *Batch) nackPhysical(idx int, err error) {
+	b.recordStatuses[idx].Flag = RecordFlagNack
+	b.recordStatuses[idx].Error = err
+	if len(b.splitRecords) > 0 {
+		if _, ok := b.splitRecords[b.positions[idx].String()]; b.positions[idx] == nil || ok {
+			from, to := b.findSplitRecord(idx)
+			for j := from; j <= to; j++ {
+				b.recordStatuses[j].Flag = RecordFlagNack
+				b.recordStatuses[j].Error = err
+			}
+		}
+	}
+	b.tainted = true
+}
+
 // Retry marks the record at index i to be retried. If a second index is
 // provided, all records between i (included) and j (excluded) are marked to be
 // retried. If multiple indices are provided, the method panics.
